@@ -2,10 +2,10 @@
 before building / resuming a simulation that names them)."""
 import numpy as np
 
-from tenpy.models.xxz_chain import XXZChain
+from tenpy.models.xxz_chain import XXZChain2
 
 
-class C18DrivenXXZ(XXZChain):
+class C18DrivenXXZ(XXZChain2):
     """XXZ chain in a time-dependent field hz(t) = hz0 * cos(omega * t); reads the model option `time`
     (set by `Model.update_time_parameter`, i.e. by `TimeDependentHAlgorithm.reinit_model`)."""
 
